@@ -353,6 +353,13 @@ pub fn step<Q: QueueLike>(q: &mut Q, op: &Op, m: &mut Model, unordered: &mut boo
                         if yielded.len() != m.len() {
                             bail!("iter_mut ended after {} of {} elements", yielded.len(), m.len());
                         }
+                        // after exhaustion the length must be 0 (and asking for it must not panic)
+                        if let Some(l) = it.xlen() {
+                            if l != 0 {
+                                bail!("iter_mut: len() = {l} after exhaustion");
+                            }
+                        }
+                        let _ = it.hint();
                     }
                     Some((i, p)) => {
                         let a = (i as *mut Item as usize, p as *mut Prio as usize);
@@ -370,6 +377,17 @@ pub fn step<Q: QueueLike>(q: &mut Q, op: &Op, m: &mut Model, unordered: &mut boo
                         }
                         yielded.push(cur.0);
                         out.push(cur);
+                        // the reported length follows the progress, wherever a length is declared
+                        let left = m.len() - yielded.len();
+                        if let Some(l) = it.xlen() {
+                            if l != left {
+                                bail!("iter_mut: len() = {l} after {} of {} elements were yielded", yielded.len(), m.len());
+                            }
+                        }
+                        let h = it.hint();
+                        if h.0 > left || h.1.map_or(false, |u| u < left) {
+                            bail!("iter_mut: size_hint() = {h:?} with {left} elements left");
+                        }
                         let v = m.get_mut(&cur.0).unwrap();
                         if let Some(np) = st.prio {
                             *p = Prio::new(np);
